@@ -1,12 +1,44 @@
 (* BufioP.v — proofs about Base/Bufio.v: every operation of the bufio.Reader model over a chunked source returns what
-   the chunk-free specification returns on the remaining bytes, whatever the chunk schedule; hence any client program
-   gets the same results under any two chunkings of the same bytes, and a source failure is never reported as EOF. *)
+   the chunk-free specification returns on the remaining bytes, whatever the chunk schedule and buffer size; hence any
+   client program gets the same results under any two chunkings of the same bytes, and a source failure is never
+   reported as EOF. *)
 From Coq Require Import List NArith Arith Bool Lia.
 From IonV Require Import Base.Bufio.
 Import ListNotations.
 
 (* the chunk-free view of a reader: unread buffered bytes followed by what the source still holds *)
 Definition abs (b : breader) : flat := mkFlat (b_buf b ++ s_rest (b_src b)) (s_fin (b_src b)).
+
+(* ---- the source ------------------------------------------------------------------------------------------------ *)
+Lemma src_read_spec cap s d e s' :
+  1 <= cap -> src_read cap s = (d, e, s') ->
+  s_rest s = d ++ s_rest s' /\ s_fin s' = s_fin s /\ length d <= cap /\
+  (s_rest s = [] -> d = [] /\ e = Some (s_fin s) /\ s' = s) /\
+  (forall x, e = Some x -> x = s_fin s /\ s_rest s' = []) /\
+  (e = None -> d <> []).
+Proof.
+  intros Hc H. unfold src_read in H. destruct (s_rest s) as [|c r] eqn:Er.
+  - inversion H; subst. rewrite Er. cbn [app length].
+    split; [reflexivity|]. split; [reflexivity|]. split; [lia|]. split; [auto|].
+    split; [intros x Hx; inversion Hx; auto|discriminate].
+  - set (want := match s_sched s with [] => length (c :: r) | k :: _ => S k end) in H.
+    set (n := Nat.min cap (Nat.min want (length (c :: r)))) in H.
+    assert (Hw : 1 <= want) by (unfold want; destruct (s_sched s); cbn [length]; lia).
+    assert (Hn : 1 <= n) by (unfold n; cbn [length]; lia).
+    assert (Hn2 : n <= cap) by (unfold n; lia).
+    inversion H; subst d e s'; clear H. cbn [s_rest s_fin].
+    assert (Hd : firstn n (c :: r) <> []) by (destruct n; [lia|cbn [firstn]; discriminate]).
+    split; [symmetry; apply firstn_skipn|]. split; [reflexivity|].
+    split; [rewrite firstn_length; lia|]. split; [discriminate|].
+    split.
+    + intros x Hx. destruct (skipn n (c :: r)); [|discriminate].
+      destruct (s_with s); [|discriminate]. inversion Hx; auto.
+    + intros _. exact Hd.
+Qed.
+
+Section WithSize.
+Variable bsize : nat.
+Hypothesis bsize_pos : 1 <= bsize.
 
 (* a recorded error is the source's final error and the source is exhausted; the buffer never exceeds its size *)
 Definition Inv (b : breader) : Prop :=
@@ -18,90 +50,421 @@ Proof. split; cbn; [apply Nat.le_0_l|exact I]. Qed.
 Lemma abs_new s : abs (new_breader s) = mkFlat (s_rest s) (s_fin s).
 Proof. reflexivity. Qed.
 
-Lemma bsize_pos : 1 <= bsize.  Proof. unfold bsize. apply Nat.leb_le. reflexivity. Qed.
-Lemma fill_loop_S f b :
-  fill_loop (S f) b =
-  let '(d, e, s') := src_read (bsize - length (b_buf b)) (b_src b) in
-  let b' := mkB (b_buf b ++ d) (b_err b) s' in
-  match e with
-  | Some x => (mkB (b_buf b') (Some x) s', false)
-  | None => match d with [] => fill_loop f b' | _ :: _ => (b', false) end
-  end.
-Proof. reflexivity. Qed.
-Global Opaque bsize.
-
-(* ---- the source ------------------------------------------------------------------------------------------------ *)
-Lemma src_read_spec cap s d e s' :
-  1 <= cap -> src_read cap s = (d, e, s') ->
-  s_rest s = d ++ s_rest s' /\ s_fin s' = s_fin s /\ length d <= cap /\
-  (s_rest s <> [] -> d <> []) /\
-  (s_rest s = [] -> d = [] /\ e = Some (s_fin s) /\ s' = s) /\
-  (forall x, e = Some x -> x = s_fin s /\ s_rest s' = []) /\
-  (e = None -> d <> []).
-Proof.
-  intros Hc H. unfold src_read in H. destruct (s_rest s) as [|c r] eqn:Er.
-  - inversion H; subst. rewrite Er. repeat split; auto; try congruence. cbn; lia.
-  - set (want := match s_sched s with [] => length (c :: r) | k :: _ => S k end) in H.
-    set (n := Nat.min cap (Nat.min want (length (c :: r)))) in H.
-    assert (Hw : 1 <= want) by (unfold want; destruct (s_sched s); cbn; lia).
-    assert (Hn : 1 <= n) by (unfold n; cbn [length]; lia).
-    assert (Hn2 : n <= cap) by (unfold n; lia).
-    inversion H; subst d e s'; clear H. cbn [s_rest s_fin].
-    assert (Hd : firstn n (c :: r) <> []) by (destruct n; [lia|cbn; congruence]).
-    repeat split; auto.
-    + symmetry. apply firstn_skipn.
-    + rewrite firstn_length. lia.
-    + congruence.
-    + congruence.
-    + congruence.
-    + destruct (skipn n (c :: r)); [destruct (s_with s)|]; congruence.
-    + destruct (skipn n (c :: r)) eqn:Es; [reflexivity|]. destruct (s_with s); congruence.
-Qed.
-
 (* ---- fill ------------------------------------------------------------------------------------------------------ *)
 Lemma fill_spec b b' np :
-  Inv b -> length (b_buf b) < bsize -> fill b = (b', np) ->
+  Inv b -> length (b_buf b) < bsize -> fill bsize b = (b', np) ->
   np = false /\ abs b' = abs b /\ Inv b' /\ s_fin (b_src b') = s_fin (b_src b) /\
   (exists d, b_buf b' = b_buf b ++ d) /\
   (b_err b' = None -> length (b_buf b) < length (b_buf b')).
 Proof.
-  intros [Hl He] Hlt H. unfold fill, max_empty_reads in H. rewrite fill_loop_S in H.
-  destruct (src_read (bsize - length (b_buf b)) (b_src b)) as [[d e] s'] eqn:Es. cbv zeta in H. cbn [b_buf] in H.
-  apply src_read_spec in Es; [|lia]. destruct Es as (E1 & E2 & E3 & E4 & E5 & E6 & E7).
+  intros [Hl He] Hlt H. unfold fill in H. cbn [fill_loop] in H.
+  destruct (src_read (bsize - length (b_buf b)) (b_src b)) as [[d e] s'] eqn:Es. cbn [b_buf] in H.
+  apply src_read_spec in Es; [|lia]. destruct Es as (E1 & E2 & E3 & E5 & E6 & E7).
   destruct e as [x|].
   - inversion H; subst b' np; clear H. destruct (E6 x eq_refl) as [Ex Er].
     unfold abs, Inv; cbn [b_buf b_err b_src]. rewrite E1, E2, app_assoc.
-    repeat split; auto; try discriminate; try (rewrite app_length; lia); eauto.
+    split; [reflexivity|]. split; [reflexivity|]. split; [split; [rewrite app_length; lia|auto]|].
+    split; [reflexivity|]. split; [eauto|discriminate].
   - specialize (E7 eq_refl). destruct d as [|c d]; [exfalso; apply E7; reflexivity|].
     inversion H; subst b' np; clear H.
     unfold abs, Inv; cbn [b_buf b_err b_src]. rewrite E1, E2, app_assoc.
-    repeat split; auto; try discriminate; try (rewrite app_length; cbn [length] in *; lia); eauto.
-    destruct (b_err b) as [e|]; auto. destruct He as [Hr _]. rewrite Hr in E1. discriminate.
+    split; [reflexivity|]. split; [reflexivity|]. split.
+    { split; [rewrite app_length; lia|].
+      destruct (b_err b) as [e|]; auto. destruct He as [Hr _]. rewrite Hr in E1. discriminate. }
+    split; [reflexivity|]. split; [eauto|]. intros _. rewrite app_length. cbn [length]. lia.
 Qed.
 
 (* ---- ReadByte -------------------------------------------------------------------------------------------------- *)
 Lemma read_byte_spec b r b' :
-  Inv b -> read_byte b = (r, b') ->
+  Inv b -> read_byte bsize b = (r, b') ->
   (r, abs b') = spec_read_byte (abs b) /\ Inv b'.
 Proof.
   intros HI H. unfold read_byte in H. cbn [read_byte_loop] in H.
   destruct (b_buf b) as [|c t] eqn:Eb.
   - destruct (b_err b) as [e|] eqn:Ee.
     + inversion H; subst r b'; clear H. destruct HI as [Hl He]. rewrite Ee in He. destruct He as [Hr Hx].
-      unfold spec_read_byte, abs, Inv. cbn [b_buf b_err b_src f_all f_fin]. rewrite Eb, Hr. cbn.
-      subst e. repeat split; auto; lia.
-    + destruct (fill b) as [b1 np] eqn:Ef.
-      apply fill_spec in Ef; auto; [|rewrite Eb; cbn; pose proof bsize_pos; lia].
+      unfold spec_read_byte, abs, Inv. cbn [b_buf b_err b_src f_all f_fin]. rewrite Eb, Hr. cbn [app length].
+      subst e. split; [reflexivity|]. split; [lia|exact I].
+    + destruct (fill bsize b) as [b1 np] eqn:Ef.
+      apply fill_spec in Ef; auto; [|rewrite Eb; cbn [length]; lia].
       destruct Ef as (-> & Ea & HI1 & Hf & [d Hd] & Hg).
       destruct (b_buf b1) as [|c t] eqn:Eb1.
-      * destruct (b_err b1) as [e|] eqn:Ee1; [|specialize (Hg eq_refl); rewrite Eb in Hg; cbn in Hg; lia].
+      * destruct (b_err b1) as [e|] eqn:Ee1; [|specialize (Hg eq_refl); rewrite Eb in Hg; cbn [length] in Hg; lia].
         inversion H; subst r b'; clear H. destruct HI1 as [Hl1 He1]. rewrite Ee1 in He1. destruct He1 as [Hr Hx].
         unfold spec_read_byte. rewrite <- Ea. unfold abs, Inv. cbn [b_buf b_err b_src f_all f_fin].
-        rewrite Eb1, Hr. cbn. subst e. repeat split; auto; lia.
-      * inversion H; subst r b'; clear H.
-        unfold spec_read_byte. rewrite <- Ea. unfold abs, Inv in *. cbn [b_buf b_err b_src f_all f_fin] in *.
-        rewrite Eb1 in *. cbn in *. repeat split; auto; try lia. apply HI1.
-  - inversion H; subst r b'; clear H.
-    unfold spec_read_byte, abs, Inv in *. cbn [b_buf b_err b_src f_all f_fin] in *. rewrite Eb in *. cbn in *.
-    repeat split; auto; try lia. apply HI.
+        rewrite Eb1, Hr. cbn [app length]. subst e. split; [reflexivity|]. split; [lia|exact I].
+      * inversion H; subst r b'; clear H. destruct HI1 as [Hl1 He1].
+        unfold spec_read_byte. rewrite <- Ea. unfold abs, Inv. cbn [b_buf b_err b_src f_all f_fin].
+        rewrite Eb1 in *. cbn [app length] in *. split; [reflexivity|]. split; [lia|exact He1].
+  - inversion H; subst r b'; clear H. destruct HI as [Hl He].
+    unfold spec_read_byte, abs, Inv. cbn [b_buf b_err b_src f_all f_fin]. rewrite Eb in *. cbn [app length] in *.
+    split; [reflexivity|]. split; [lia|exact He].
 Qed.
+
+(* ---- Peek ------------------------------------------------------------------------------------------------------ *)
+(* the fill loop of Peek: buffered bytes only grow, the abstract state is unchanged, and it stops because enough is
+   buffered, the buffer is full, or the error is recorded (fuel S (min n bsize) is enough: every round adds a byte) *)
+Ltac stop3 := split; [reflexivity|split; [reflexivity|split; [assumption|]]].
+
+Lemma peek_fill_spec n : forall fuel b b1 np,
+  Inv b -> peek_fill bsize fuel n b = (b1, np) ->
+  Nat.min n bsize - length (b_buf b) < fuel ->
+  np = false /\ abs b1 = abs b /\ Inv b1 /\
+  (n <= length (b_buf b1) \/ bsize <= length (b_buf b1) \/ b_err b1 <> None).
+Proof.
+  induction fuel as [|f IH]; intros b b1 np HI H Hf; [lia|].
+  cbn [peek_fill] in H.
+  destruct (length (b_buf b) <? n) eqn:E1; cbn [andb] in H.
+  2:{ inversion H; subst. apply Nat.ltb_ge in E1. stop3. left. exact E1. }
+  destruct (length (b_buf b) <? bsize) eqn:E2; cbn [andb] in H.
+  2:{ inversion H; subst. apply Nat.ltb_ge in E2. stop3. right; left. exact E2. }
+  destruct (b_err b) as [e|] eqn:Ee.
+  { inversion H; subst. stop3. right; right. rewrite Ee. discriminate. }
+  apply Nat.ltb_lt in E1. apply Nat.ltb_lt in E2.
+  destruct (fill bsize b) as [b2 np2] eqn:Ef.
+  apply fill_spec in Ef; auto. destruct Ef as (-> & Ea & HI2 & Hfin & [d Hd] & Hg).
+  destruct (b_err b2) as [e2|] eqn:Ee2.
+  - (* the error is recorded: the next round stops *)
+    destruct f as [|f'].
+    + cbn [peek_fill] in H. inversion H; subst. split; [reflexivity|split; [assumption|split; [assumption|]]]. right; right. rewrite Ee2. discriminate.
+    + cbn [peek_fill] in H. rewrite Ee2 in H. rewrite !andb_false_r in H. inversion H; subst.
+      split; [reflexivity|split; [assumption|split; [assumption|]]]. right; right. rewrite Ee2. discriminate.
+  - specialize (Hg eq_refl). apply IH in H; auto; [|lia].
+    destruct H as (-> & Ea' & HI' & Hs). rewrite Ea', Ea. split; [reflexivity|split; [reflexivity|split; assumption]].
+Qed.
+
+Lemma firstn_app_le {A} (l1 l2 : list A) n : n <= length l1 -> firstn n (l1 ++ l2) = firstn n l1.
+Proof. intros H. rewrite firstn_app. replace (n - length l1) with 0 by lia. cbn [firstn]. apply app_nil_r. Qed.
+
+Lemma peek_spec n b d e b' :
+  Inv b -> peek bsize n b = (d, e, b') ->
+  (d, e, abs b') = spec_peek bsize n (abs b) /\ Inv b'.
+Proof.
+  intros HI H. unfold peek in H.
+  destruct (peek_fill bsize (S (Nat.min n bsize)) n b) as [b1 np] eqn:Ep.
+  apply peek_fill_spec in Ep; auto; [|lia]. destruct Ep as (-> & Ea & HI1 & Hs).
+  unfold spec_peek. rewrite <- Ea. destruct HI1 as [Hl1 He1].
+  destruct (bsize <? n) eqn:E1.
+  - (* n > size: whatever is buffered, ErrBufferFull *)
+    apply Nat.ltb_lt in E1. inversion H; subst d e b'; clear H.
+    split; [|split; assumption]. f_equal. f_equal. unfold abs. cbn [f_all].
+    destruct Hs as [Hs|[Hs|Hs]]; [lia| |].
+    + assert (length (b_buf b1) = bsize) by lia. rewrite firstn_app_le by lia. rewrite <- H. symmetry. apply firstn_all.
+    + destruct (b_err b1) as [x|]; [|congruence]. destruct He1 as [Hr _]. rewrite Hr, app_nil_r.
+      symmetry. apply firstn_all2. lia.
+  - apply Nat.ltb_ge in E1.
+    destruct (length (b_buf b1) <? n) eqn:E2.
+    + apply Nat.ltb_lt in E2. unfold read_err in H. inversion H; subst d e b'; clear H.
+      destruct Hs as [Hs|[Hs|Hs]]; [lia|lia|].
+      destruct (b_err b1) as [x|] eqn:Ee; [|congruence]. destruct He1 as [Hr Hx].
+      unfold abs, Inv. cbn [b_buf b_err b_src f_all f_fin]. rewrite Hr, app_nil_r.
+      assert (E3 : (length (b_buf b1) <? n) = true) by (apply Nat.ltb_lt; lia). rewrite E3. subst x.
+      split; [reflexivity|]. split; [assumption|exact I].
+    + apply Nat.ltb_ge in E2. inversion H; subst d e b'; clear H.
+      unfold abs. cbn [f_all f_fin].
+      assert (E3 : (length (b_buf b1 ++ s_rest (b_src b1)) <? n) = false)
+        by (apply Nat.ltb_ge; rewrite app_length; lia).
+      rewrite E3, firstn_app_le by lia. split; [reflexivity|split; assumption].
+Qed.
+
+(* ---- Discard --------------------------------------------------------------------------------------------------- *)
+Lemma skipn_skipn' {A} (a b : nat) (l : list A) : skipn a (skipn b l) = skipn (b + a) l.
+Proof. revert l; induction b as [|b IH]; intros l; [reflexivity|]. destruct l; [destruct a; reflexivity|]. cbn. apply IH. Qed.
+Lemma skipn_app_le {A} (l1 l2 : list A) n : n <= length l1 -> skipn n (l1 ++ l2) = skipn n l1 ++ l2.
+Proof. intros H. rewrite skipn_app. replace (n - length l1) with 0 by lia. reflexivity. Qed.
+Lemma skipn_all' {A} (l : list A) n : length l <= n -> skipn n l = [].
+Proof. intros H. apply skipn_all2. exact H. Qed.
+
+Lemma discard_loop_spec n : forall fuel remain b k e b',
+  Inv b -> 1 <= remain -> remain <= n -> remain < fuel ->
+  discard_loop bsize fuel n remain b = (k, e, b') ->
+  let all := f_all (abs b) in
+  let m := Nat.min remain (length all) in
+  k = n - remain + m /\
+  e = (if m =? remain then None else Some (of_ferr (f_fin (abs b)))) /\
+  abs b' = mkFlat (skipn m all) (f_fin (abs b)) /\ Inv b'.
+Proof.
+  induction fuel as [|f IH]; intros remain b k e b' HI Hr1 Hrn Hf H; [lia|].
+  cbn [discard_loop] in H.
+  (* the optional fill *)
+  assert (Hfill : exists b1 np, (match b_buf b with [] => fill bsize b | _ :: _ => (b, false) end) = (b1, np) /\
+            np = false /\ abs b1 = abs b /\ Inv b1 /\ (b_err b1 = None -> 1 <= length (b_buf b1))).
+  { destruct (b_buf b) as [|c t] eqn:Eb.
+    - destruct (fill bsize b) as [b1 np] eqn:Ef. exists b1, np. split; [reflexivity|].
+      apply fill_spec in Ef; auto; [|rewrite Eb; cbn [length]; lia].
+      destruct Ef as (-> & Ea & HI1 & _ & _ & Hg). repeat split; try assumption; try apply HI1.
+      intros Hn. specialize (Hg Hn). rewrite Eb in Hg. cbn [length] in Hg. lia.
+    - exists b, false. repeat split; try apply HI. intros _. rewrite Eb. cbn [length]. lia. }
+  destruct Hfill as (b1 & np & Efill & -> & Ea & HI1 & Hprog). rewrite Efill in H. clear Efill.
+  set (skip := Nat.min (length (b_buf b1)) remain) in *.
+  cbv zeta. rewrite <- Ea. unfold abs. cbn [f_all f_fin].
+  destruct HI1 as [Hl1 He1].
+  destruct (remain - skip =? 0) eqn:E0.
+  - (* enough was buffered *)
+    apply Nat.eqb_eq in E0. inversion H; subst k e b'; clear H.
+    assert (Hs : skip = remain) by (unfold skip in *; lia).
+    assert (Hle : remain <= length (b_buf b1)) by (unfold skip in *; lia).
+    assert (Hm : Nat.min remain (length (b_buf b1 ++ s_rest (b_src b1))) = remain) by (rewrite app_length; lia).
+    rewrite Hm, Nat.eqb_refl, Hs. unfold abs, Inv. cbn [b_buf b_err b_src f_all f_fin].
+    rewrite ?Hm. rewrite skipn_app_le by lia. split; [lia|]. split; [reflexivity|]. split; [reflexivity|].
+    split; [rewrite skipn_length; lia|exact He1].
+  - apply Nat.eqb_neq in E0.
+    assert (Hs : skip = length (b_buf b1)) by (unfold skip in *; lia).
+    assert (Hlt : length (b_buf b1) < remain) by (unfold skip in *; lia).
+    cbn [b_err b_buf b_src] in H.
+    destruct (b_err b1) as [x|] eqn:Ee.
+    + (* the input ends here *)
+      destruct He1 as [Hrest Hx]. inversion H; subst k e b'; clear H.
+      unfold abs, Inv. cbn [b_buf b_err b_src f_all f_fin]. rewrite !Hrest, !app_nil_r.
+      assert (Hm : Nat.min remain (length (b_buf b1)) = length (b_buf b1)) by lia.
+      rewrite !Hm. assert (E1 : (length (b_buf b1) =? remain) = false) by (apply Nat.eqb_neq; lia). rewrite E1.
+      rewrite Hs, !skipn_all.
+      subst x. split; [lia|]. split; [reflexivity|]. split; [reflexivity|]. split; [cbn [length]; lia|exact I].
+    + specialize (Hprog eq_refl).
+      apply IH in H; [| |lia|lia|lia].
+      2:{ unfold Inv. cbn [b_buf b_err b_src]. split; [rewrite skipn_length; lia|exact I]. }
+      cbv zeta in H. unfold abs in H. cbn [b_buf b_src f_all f_fin] in H.
+      rewrite Hs, skipn_all in H. cbn [app] in H.
+      destruct H as (Hk & He & Hab & HIb).
+      assert (Hm : Nat.min remain (length (b_buf b1 ++ s_rest (b_src b1))) =
+                   length (b_buf b1) + Nat.min (remain - length (b_buf b1)) (length (s_rest (b_src b1))))
+        by (rewrite app_length; lia).
+      rewrite Hm. split; [lia|]. split.
+      { rewrite He. destruct (Nat.min (remain - length (b_buf b1)) (length (s_rest (b_src b1))) =? remain - length (b_buf b1)) eqn:E1.
+        - apply Nat.eqb_eq in E1. assert (E2 : (length (b_buf b1) + Nat.min (remain - length (b_buf b1)) (length (s_rest (b_src b1))) =? remain) = true) by (apply Nat.eqb_eq; lia). rewrite E2. reflexivity.
+        - apply Nat.eqb_neq in E1. assert (E2 : (length (b_buf b1) + Nat.min (remain - length (b_buf b1)) (length (s_rest (b_src b1))) =? remain) = false) by (apply Nat.eqb_neq; lia). rewrite E2. reflexivity. }
+      split; [|exact HIb]. rewrite Hab. f_equal.
+      rewrite <- skipn_skipn'. rewrite skipn_app_le by lia. rewrite skipn_all. reflexivity.
+Qed.
+
+Lemma discard_spec n b k e b' :
+  Inv b -> discard bsize n b = (k, e, b') ->
+  (k, e, abs b') = spec_discard n (abs b) /\ Inv b'.
+Proof.
+  intros HI H. unfold discard in H. destruct n as [|n'].
+  - inversion H; subst. unfold spec_discard. cbn [Nat.min skipn Nat.eqb]. split; [|exact HI].
+    unfold abs. reflexivity.
+  - apply discard_loop_spec in H; auto; try lia. cbv zeta in H. destruct H as (Hk & He & Ha & HI').
+    split; [|exact HI']. unfold spec_discard. rewrite Ha, Hk, He.
+    replace (S n' - S n' + Nat.min (S n') (length (f_all (abs b)))) with (Nat.min (S n') (length (f_all (abs b)))) by lia.
+    reflexivity.
+Qed.
+
+(* ---- Read (one read of the source at most) and io.ReadFull ------------------------------------------------------- *)
+Lemma firstn_nonnil {A} (l : list A) m : 1 <= m -> l <> [] -> firstn m l <> [].
+Proof. destruct m; [lia|]. destruct l; [congruence|]. cbn [firstn]. discriminate. Qed.
+
+Lemma bread_spec m b d e b' :
+  Inv b -> 1 <= m -> bread bsize m b = (d, e, b') ->
+  f_all (abs b) = d ++ f_all (abs b') /\ f_fin (abs b') = f_fin (abs b) /\ length d <= m /\ Inv b' /\
+  (e = None -> d <> []) /\
+  (forall x, e = Some x -> x = f_fin (abs b) /\ f_all (abs b') = []).
+Proof.
+  intros [Hl He] Hm H. unfold bread in H. destruct m as [|m']; [lia|].
+  destruct (b_buf b) as [|c t] eqn:Eb.
+  - destruct (b_err b) as [x|] eqn:Ee.
+    + destruct He as [Hr Hx]. inversion H; subst d e b'; clear H.
+      unfold abs, Inv. cbn [b_buf b_err b_src f_all f_fin app length]. rewrite Eb, Hr.
+      split; [reflexivity|]. split; [reflexivity|]. split; [lia|]. split; [split; [lia|exact I]|].
+      split; [discriminate|]. intros y Hy. inversion Hy; subst. auto.
+    + destruct (bsize <=? S m') eqn:Eg.
+      * destruct (src_read (S m') (b_src b)) as [[d0 e0] s'] eqn:Es.
+        apply src_read_spec in Es; [|lia]. destruct Es as (E1 & E2 & E3 & E5 & E6 & E7).
+        inversion H; subst d e b'; clear H.
+        unfold abs, Inv. cbn [b_buf b_err b_src f_all f_fin app length]. rewrite Eb. cbn [app].
+        split; [exact E1|]. split; [exact E2|]. split; [exact E3|]. split; [split; [lia|exact I]|].
+        split; [exact E7|]. intros y Hy. destruct (E6 y Hy). auto.
+      * destruct (src_read bsize (b_src b)) as [[d0 e0] s'] eqn:Es.
+        apply src_read_spec in Es; [|lia]. destruct Es as (E1 & E2 & E3 & E5 & E6 & E7).
+        apply Nat.leb_gt in Eg.
+        destruct d0 as [|c0 d0'].
+        { inversion H; subst d e b'; clear H.
+          unfold abs, Inv. cbn [b_buf b_err b_src f_all f_fin app length]. rewrite Eb. cbn [app].
+          split; [exact E1|]. split; [exact E2|]. split; [lia|]. split; [split; [lia|exact I]|].
+          split; [intros Hn; exfalso; apply (E7 Hn); reflexivity|].
+          intros y Hy. destruct (E6 y Hy). auto. }
+        inversion H; subst d e b'; clear H.
+        unfold abs, Inv. cbn [b_buf b_err b_src f_all f_fin]. rewrite Eb. cbn [app].
+        cbn [length] in E3.
+        split; [rewrite app_assoc, firstn_skipn; exact E1|]. split; [exact E2|].
+        split; [cbn [length]; rewrite firstn_length; lia|].
+        split.
+        { split; [rewrite skipn_length; lia|]. destruct e0 as [y|]; [|exact I]. destruct (E6 y eq_refl). split; congruence. }
+        split; [intros _; discriminate|discriminate].
+  - inversion H; subst d e b'; clear H.
+    unfold abs, Inv. cbn [b_buf b_err b_src f_all f_fin]. rewrite Eb.
+    cbn [length] in Hl.
+    split; [cbn [app]; rewrite app_assoc, firstn_skipn; reflexivity|]. split; [reflexivity|].
+    split; [cbn [length]; rewrite firstn_length; lia|].
+    split; [split; [rewrite skipn_length; lia|exact He]|].
+    split; [intros _; discriminate|discriminate].
+Qed.
+
+Definition rf_err (dd : list N) (fin : ferr) : berr :=
+  match dd, fin with _ :: _, FEof => EUnexpectedEof | _, e => of_ferr e end.
+
+Lemma read_full_loop_spec m : forall fuel acc b dd ee b',
+  Inv b -> length acc <= m -> m - length acc < fuel ->
+  read_full_loop bsize fuel m acc b = (dd, ee, b') ->
+  let all := f_all (abs b) in
+  dd = firstn m (acc ++ all) /\
+  abs b' = mkFlat (skipn (m - length acc) all) (f_fin (abs b)) /\ Inv b' /\
+  ee = (if m <=? length acc + length all then None else Some (rf_err dd (f_fin (abs b)))).
+Proof.
+  induction fuel as [|f IH]; intros acc b dd ee b' HI Ha Hf H; [lia|].
+  cbv zeta. cbn [read_full_loop] in H.
+  destruct (m <=? length acc) eqn:E0.
+  - apply Nat.leb_le in E0. inversion H; subst dd ee b'; clear H.
+    assert (length acc = m) by lia.
+    rewrite firstn_app_le by lia. replace (m - length acc) with 0 by lia. cbn [skipn].
+    assert (E1 : (m <=? length acc + length (f_all (abs b))) = true) by (apply Nat.leb_le; lia). rewrite E1.
+    split; [symmetry; subst m; apply firstn_all|]. split; [destruct (abs b); reflexivity|]. split; [exact HI|reflexivity].
+  - apply Nat.leb_gt in E0.
+    destruct (bread bsize (m - length acc) b) as [[d e] b1] eqn:Eb.
+    apply bread_spec in Eb; auto; [|lia]. destruct Eb as (E1 & E2 & E3 & HI1 & E5 & E6).
+    destruct e as [x|].
+    + destruct (E6 x eq_refl) as [Ex Er]. rewrite Er, app_nil_r in E1.
+      destruct (m <=? length (acc ++ d)) eqn:E7.
+      * apply Nat.leb_le in E7. rewrite app_length in E7. inversion H; subst dd ee b'; clear H.
+        rewrite E1. assert (E8 : (m <=? length acc + length d) = true) by (apply Nat.leb_le; lia). rewrite E8.
+        split; [symmetry; apply firstn_all2; rewrite app_length; lia|].
+        split; [|split; [exact HI1|reflexivity]].
+        rewrite skipn_all' by lia. destruct (abs b1) as [a1 f1] eqn:Eab. cbn [f_all f_fin] in *. subst. reflexivity.
+      * apply Nat.leb_gt in E7. rewrite app_length in E7. inversion H; subst dd ee b'; clear H.
+        rewrite E1. assert (E8 : (m <=? length acc + length d) = false) by (apply Nat.leb_gt; lia). rewrite E8.
+        assert (E9 : firstn m (acc ++ d) = acc ++ d) by (apply firstn_all2; rewrite app_length; lia).
+        rewrite E9. split; [reflexivity|].
+        split; [rewrite skipn_all' by lia; destruct (abs b1) as [a1 f1] eqn:Eab; cbn [f_all f_fin] in *; subst; reflexivity|].
+        split; [exact HI1|]. subst x. unfold rf_err. destruct (acc ++ d); reflexivity.
+    + specialize (E5 eq_refl).
+      assert (1 <= length d) by (destruct d; [congruence|cbn [length]; lia]).
+      apply IH in H; auto; [|rewrite app_length; lia|rewrite app_length; lia].
+      cbv zeta in H. destruct H as (Hd & Hab & HIb & He).
+      rewrite E1. split; [rewrite Hd, <- app_assoc; reflexivity|].
+      split.
+      { rewrite Hab, E2. f_equal. rewrite app_length.
+        rewrite skipn_app, (skipn_all' d) by lia. cbn [app]. f_equal. lia. }
+      split; [exact HIb|]. rewrite He, E2, !app_length. rewrite Nat.add_assoc. reflexivity.
+Qed.
+
+Lemma read_full_spec m b d e b' :
+  Inv b -> read_full bsize m b = (d, e, b') ->
+  (d, e, abs b') = spec_read_full m (abs b) /\ Inv b'.
+Proof.
+  intros HI H. unfold read_full in H. apply read_full_loop_spec in H; auto; cbn [length]; try lia.
+  cbv zeta in H. cbn [app length] in H. rewrite Nat.sub_0_r in H. destruct H as (Hd & Ha & HI' & He).
+  split; [|exact HI']. cbn [Nat.add] in He. unfold spec_read_full. rewrite Ha, He. subst d. unfold rf_err.
+  destruct (abs b) as [al fi]; cbn [f_all f_fin]. destruct fi, (firstn m al); reflexivity.
+Qed.
+
+(* ---- every operation, any client ---------------------------------------------------------------------------------- *)
+Lemma do_op_spec o b r b' :
+  Inv b -> do_op bsize o b = (r, b') -> (r, abs b') = spec_op bsize o (abs b) /\ Inv b'.
+Proof.
+  intros HI H. destruct o as [|n|n|n]; cbn [do_op spec_op] in *.
+  - destruct (read_byte bsize b) as [x b1] eqn:E. inversion H; subst. apply read_byte_spec in E; auto.
+    destruct E as [E HI']. rewrite <- E. auto.
+  - destruct (peek bsize n b) as [[d e] b1] eqn:E. inversion H; subst. apply peek_spec in E; auto.
+    destruct E as [E HI']. rewrite <- E. auto.
+  - destruct (discard bsize n b) as [[k e] b1] eqn:E. inversion H; subst. apply discard_spec in E; auto.
+    destruct E as [E HI']. rewrite <- E. auto.
+  - destruct (read_full bsize n b) as [[d e] b1] eqn:E. inversion H; subst. apply read_full_spec in E; auto.
+    destruct E as [E HI']. rewrite <- E. auto.
+Qed.
+
+Lemma run_refines {R} (c : client R) : forall b,
+  Inv b -> fst (run bsize c b) = fst (run_spec bsize c (abs b)).
+Proof.
+  induction c as [r|o k IH]; intros b HI; [reflexivity|].
+  cbn [run run_spec]. destruct (do_op bsize o b) as [x b1] eqn:E. apply do_op_spec in E; auto.
+  destruct E as [E HI1]. rewrite <- E. apply IH. exact HI1.
+Qed.
+
+Lemma run_ops_refines os : forall b, Inv b -> run_ops bsize os b = spec_ops bsize os (abs b).
+Proof.
+  induction os as [|o t IH]; intros b HI; [reflexivity|].
+  cbn [run_ops spec_ops]. destruct (do_op bsize o b) as [x b1] eqn:E. apply do_op_spec in E; auto.
+  destruct E as [E HI1]. rewrite <- E. f_equal. apply IH. exact HI1.
+Qed.
+
+(* ---- consequences ------------------------------------------------------------------------------------------------- *)
+(* what a client sees depends on the bytes and the final error only, never on how the source cut them into chunks *)
+Theorem chunk_independent {R} (c : client R) s1 s2 :
+  s_rest s1 = s_rest s2 -> s_fin s1 = s_fin s2 ->
+  fst (run bsize c (new_breader s1)) = fst (run bsize c (new_breader s2)).
+Proof.
+  intros Hr Hf. rewrite !run_refines by apply inv_new. rewrite !abs_new, Hr, Hf. reflexivity.
+Qed.
+Theorem chunk_independent_ops os s1 s2 :
+  s_rest s1 = s_rest s2 -> s_fin s1 = s_fin s2 ->
+  run_ops bsize os (new_breader s1) = run_ops bsize os (new_breader s2).
+Proof.
+  intros Hr Hf. rewrite !run_ops_refines by apply inv_new. rewrite !abs_new, Hr, Hf. reflexivity.
+Qed.
+
+(* a result that mentions end-of-input *)
+Definition berr_is_eof (e : berr) : bool := match e with EEof | EUnexpectedEof => true | _ => false end.
+Definition says_eof (r : ores) : bool :=
+  match r with
+  | ResByte (RBErr e) => berr_is_eof e
+  | ResByte (RB _) => false
+  | ResBytes _ (Some e) | ResCount _ (Some e) => berr_is_eof e
+  | ResBytes _ None | ResCount _ None => false
+  end.
+(* an operation that could not be served in full: it reports an error *)
+Definition short (o : op) (avail : nat) : bool :=
+  match o with
+  | OReadByte => avail =? 0
+  | OPeek n => (avail <? n) && (n <=? bsize)
+  | ODiscard n | OReadFull n => avail <? n
+  end.
+Definition reports (r : ores) (e : berr) : Prop :=
+  match r with
+  | ResByte (RBErr x) => x = e
+  | ResBytes _ (Some x) | ResCount _ (Some x) => x = e
+  | _ => False
+  end.
+
+Lemma spec_op_fail o x r x' :
+  f_fin x = FFail -> spec_op bsize o x = (r, x') ->
+  says_eof r = false /\ f_fin x' = FFail /\ (short o (length (f_all x)) = true -> reports r EFail).
+Proof.
+  intros Hf H. destruct x as [al fi]. cbn [f_fin f_all] in *. subst fi.
+  destruct o as [|n|n|n]; cbn [spec_op] in H.
+  - unfold spec_read_byte in H. cbn [f_all f_fin] in H. destruct al as [|c t]; inversion H; subst; cbn; auto.
+    repeat split; auto. discriminate.
+  - unfold spec_peek in H. cbn [f_all f_fin] in H. cbn [short].
+    destruct (bsize <? n) eqn:E1.
+    + inversion H; subst. apply Nat.ltb_lt in E1. assert (E2 : (n <=? bsize) = false) by (apply Nat.leb_gt; lia).
+      rewrite E2, andb_false_r. cbn. repeat split; auto. discriminate.
+    + destruct (length al <? n) eqn:E2; inversion H; subst; cbn; repeat split; auto; discriminate.
+  - unfold spec_discard in H. cbn [f_all f_fin] in H. inversion H; subst; clear H. cbn [short f_fin says_eof].
+    destruct (Nat.min n (length al) =? n) eqn:E1; cbn [of_ferr berr_is_eof reports].
+    + apply Nat.eqb_eq in E1. repeat split; auto. intros E2. apply Nat.ltb_lt in E2. lia.
+    + repeat split; auto.
+  - unfold spec_read_full in H. cbn [f_all f_fin] in H. inversion H; subst; clear H. cbn [short f_fin says_eof].
+    destruct (n <=? length al) eqn:E1.
+    + apply Nat.leb_le in E1. repeat split; auto. intros E2. apply Nat.ltb_lt in E2. lia.
+    + destruct (firstn n al); cbn; repeat split; auto.
+Qed.
+
+(* the source failed: whatever the client does and however the bytes were chunked, no operation ever reports a clean or
+   unexpected END of input, and every operation that runs out of bytes reports the failure *)
+Theorem failure_never_looks_like_eof os : forall b,
+  Inv b -> s_fin (b_src b) = FFail ->
+  forallb (fun r => negb (says_eof r)) (run_ops bsize os b) = true.
+Proof.
+  induction os as [|o t IH]; intros b HI Hf; [reflexivity|].
+  cbn [run_ops]. destruct (do_op bsize o b) as [r b1] eqn:E. apply do_op_spec in E; auto. destruct E as [E HI1].
+  symmetry in E. apply spec_op_fail in E; [|exact Hf]. destruct E as (E1 & E2 & _).
+  cbn [forallb]. rewrite E1. cbn [negb andb]. apply IH; auto.
+Qed.
+Theorem failure_is_reported o b r b' :
+  Inv b -> s_fin (b_src b) = FFail -> do_op bsize o b = (r, b') ->
+  short o (length (b_buf b ++ s_rest (b_src b))) = true -> reports r EFail.
+Proof.
+  intros HI Hf H Hs. apply do_op_spec in H; auto. destruct H as [E _]. symmetry in E.
+  apply spec_op_fail in E; [|exact Hf]. destruct E as (_ & _ & E3). apply E3. exact Hs.
+Qed.
+
+End WithSize.
